@@ -600,3 +600,28 @@ def build(ck):
     build_axes(ck, T)
     build_mv(ck, T)
     build_rules(ck, T)
+    lazy_transposes(ck)
+
+
+def lazy_transposes(ck):
+    """'its transpose accumulates the selected positions into a zero array': IndexOperator and PackOperator define no
+    transpose of their own — op.T is the lazy TransposeOperator, i.e. jax.linear_transpose of the gather proved above (an
+    assumed dependency contract, conformance-checked by the native oracle `select` in the thorough tier).  That they
+    resolve to the default is decided on the class table; a hand-written transpose is outside the contracts of this pack:
+    the clause is then undecided and the oracle is run at once"""
+    P = ck.P
+    base = P.cls('furax._base.core.AbstractLinearOperator')
+    lazy = P.cls('furax._base.core.TransposeOperator')
+    for cname in ('IndexOperator', 'PackOperator'):
+        ci = P.cls(cname)
+        owner = next((c for c in ci.mro if 'transpose' in c.methods or 'transpose' in getattr(c, 'patched', {})), None)
+        if owner is not base:
+            ck._undecided(f'{ci.module}.{cname}.transpose', 'lazy-transposes',
+                          f'{cname}.transpose resolves to {owner.name if owner else None}, not to the lazy default',
+                          oracle={'name': 'select'})
+    for c in P.classes.values():
+        if lazy in c.mro and c is not lazy and 'mv' in c.methods and c.module in ('furax._base.indices', 'furax._base.linear'):
+            ck._undecided(f'{c.module}.{c.name}.mv', 'lazy-transposes', 'hand-written transposed application',
+                          oracle={'name': 'select'})
+    ck.samples.append({'transposes_of_index_and_pack_operators': 'lazy default (jax.linear_transpose of mv)'})
+
